@@ -1382,7 +1382,15 @@ func runCalls(t *testing.T, seg *Segment, progress *atomic.Int64) {
 		}
 		// who is still there?
 		for _, d := range dumpAll() {
-			if d.goid == self || !strings.Contains(d.header, "synctest bubble") || isSynctestInfra(d.body) {
+			if d.goid == self || isSynctestInfra(d.body) {
+				continue
+			}
+			if !strings.Contains(d.header, "synctest bubble") {
+				// outside the simulation: only of interest if the library started it (a goroutine
+				// launched from a package's init() that lives for ever)
+				if hasModuleFrame(d.body) {
+					leaks = append(leaks, Leak{Header: d.header + " (outside the simulation: started during package initialisation)", Stack: d.body, Module: true})
+				}
 				continue
 			}
 			leaks = append(leaks, Leak{Header: d.header, Stack: d.body, Module: hasModuleFrame(d.body)})
